@@ -10,15 +10,16 @@ def runHist (rev : Bool) : BC → List Step → Except Err (List Obs × BC)
     let (os, bc2) ← runHist rev bc1 ss
     .ok (o :: os, bc2)
 
-/-- what the BlockChain needs from its finder after a call: sound answers, and (after `lock_to_index`) the
-rebuilt finder still knows the unlocked remainder of the reported chain -/
-def StepHyp (bc : BC) : Prop :=
-  FinderSound bc.finder ∧ ∀ c, bc.cache = some c → UpPath bc.finder.parent (c ++ [bc.parentHash])
+/-- what the BlockChain proofs need from the finder after a call: after `add_headers` its answers are sound;
+after `lock_to_index` the rebuilt finder still knows the unlocked remainder of the reported chain -/
+def StepHyp (bc : BC) : Step → Prop
+  | .add _ _ => FinderSound bc.finder
+  | .lock _ _ => ∀ c, bc.cache = some c → UpPath bc.finder.parent (c ++ [bc.parentHash])
 
 /-- `StepHyp` holds after every call of the history -/
 def HypRun (rev : Bool) : BC → List Step → Prop
   | _, [] => True
-  | bc, s :: ss => ∀ o bc', bc.step rev s = .ok (o, bc') → StepHyp bc' ∧ HypRun rev bc' ss
+  | bc, s :: ss => ∀ o bc', bc.step rev s = .ok (o, bc') → StepHyp bc' s ∧ HypRun rev bc' ss
 
 /-- no delivered header carries the anchor's hash (the anchor is outside the forest) -/
 def Step.avoids (anchor0 : Nat) : Step → Prop
@@ -43,7 +44,7 @@ theorem run_good (anchor0 : Nat) (rev : Bool) : ∀ (steps : List Step) (bc bc' 
       obtain ⟨⟨os, bc2⟩, h2, hr⟩ := bind_ok hr
       simp only [Except.ok.injEq, Prod.mk.injEq] at hr
       obtain ⟨rfl, rfl⟩ := hr
-      obtain ⟨⟨hs, hp⟩, hh'⟩ := hh o bc1 h1
+      obtain ⟨hsp, hh'⟩ := hh o bc1 h1
       have hav' : ∀ s ∈ ss, s.avoids anchor0 := fun s hs => hav s (List.mem_cons_of_mem _ hs)
       cases s with
       | add batch rank =>
@@ -52,7 +53,7 @@ theorem run_good (anchor0 : Nat) (rev : Bool) : ∀ (steps : List Step) (bc bc' 
         simp only [Except.ok.injEq, Prod.mk.injEq] at h1
         obtain ⟨rfl, rfl⟩ := h1
         obtain ⟨c1, g1, _, r1⟩ := addHeaders_good anchor0 rev rank bc bcx c batch ops
-          (hav (.add batch rank) (by simp)) g h1a hs
+          (hav (.add batch rank) (by simp)) g h1a hsp
         obtain ⟨c2, g2, r2⟩ := run_good anchor0 rev ss bcx bc2 c1 os g1 hav' hh' h2
         refine ⟨c2, g2, ?_⟩
         simp only [allOps, List.flatMap_cons] at r2 ⊢
@@ -62,7 +63,7 @@ theorem run_good (anchor0 : Nat) (rev : Bool) : ∀ (steps : List Step) (bc bc' 
         obtain ⟨⟨cb, bcx⟩, h1a, h1⟩ := bind_ok h1
         simp only [Except.ok.injEq, Prod.mk.injEq] at h1
         obtain ⟨rfl, rfl⟩ := h1
-        obtain ⟨c1, g1, e1⟩ := lockToIndex_good anchor0 rev rank bc bcx c index cb g h1a hp
+        obtain ⟨c1, g1, e1⟩ := lockToIndex_good anchor0 rev rank bc bcx c index cb g h1a hsp
         obtain ⟨c2, g2, r2⟩ := run_good anchor0 rev ss bcx bc2 c1 os g1 hav' hh' h2
         refine ⟨c2, g2, ?_⟩
         simp only [allOps, List.flatMap_cons, List.nil_append] at r2 ⊢
